@@ -128,6 +128,7 @@ class RefEVM:
         self.max_stack = max_stack
         self.steps = 0
         self.opaque_used: list[str] = []
+        self.sender_hook = None  # (evm, frame, to | None, scheme) -> (sender, origin | None) | None   (prank model)
         self.gas_pending = 0
         self._jd_cache: dict[bytes, set[int]] = {}
         self.created: list[int] = []
@@ -567,7 +568,13 @@ class RefEVM:
             target, caller, val = this, this, value
         else:
             target, caller, val = this, fr.caller, fr.value
-        sub = Frame(scheme=scheme, target=target, caller=caller, origin=fr.origin, value=val, data=args,
+        origin = fr.origin
+        if self.sender_hook is not None:
+            r = self.sender_hook(self, fr, to, scheme)
+            if r is not None:
+                caller = r[0]
+                origin = r[1] if r[1] is not None else origin
+        sub = Frame(scheme=scheme, target=target, caller=caller, origin=origin, value=val, data=args,
                     static=fr.static or op == 0xFA, depth=fr.depth + 1, code_addr=to)
         if fr.depth + 1 > MAX_DEPTH:
             sub.error = "halt:depth"
@@ -621,7 +628,13 @@ class RefEVM:
         if self.addr_oracle is None:
             raise Unsupported("no address oracle")
         new_addr = self.addr_oracle(scheme, this, init, salt, len(self.created))
-        sub = Frame(scheme=scheme, target=new_addr, caller=this, origin=fr.origin, value=value, data=init,
+        creator, origin = this, fr.origin
+        if self.sender_hook is not None:
+            r = self.sender_hook(self, fr, None, scheme)
+            if r is not None:
+                creator = r[0]
+                origin = r[1] if r[1] is not None else origin
+        sub = Frame(scheme=scheme, target=new_addr, caller=creator, origin=origin, value=value, data=init,
                     static=False, depth=fr.depth + 1, code_addr=None)
         if value and w.bal(this) < value:
             sub.error = "halt:insufficient"
